@@ -71,9 +71,11 @@ def run(tier, seed, res, lean):
                     '(Graph.okB, Graph.callOKB: proved to imply GraphOK, CallOK) to true; on each the machine result must '
                     'be the denotation or a scheduled user exception',
             'hypotheses_hold': stats['thm_instances'], 'hypotheses_fail (cache edges / unbound input)': stats['thm_hyp_false'],
-            'contradicted': stats['thm_contradicted']},
+            'contradicted': stats['thm_contradicted'],
+            'with_cache_edges_on_exact_stores (CM.C04.full_spec_along_history + CM.C05)': stats['cached_thm_instances'],
+            'with_cache_edges_contradicted': stats['cached_thm_contradicted']},
     })
-    if stats['thm_contradicted']:
+    if stats['thm_contradicted'] or stats['cached_thm_contradicted']:
         raise RuntimeError('the compiled driver contradicts the proved theorem CM.C01.compiled_value: model and proof out of sync')
 
 
